@@ -188,6 +188,14 @@ def gen_check(g, case, rec):
                 cnt[tuple(sorted((int(c[f[0]]), int(c[f[1]]))))] += 1
         rad = np.linalg.norm(pts - np.array(case["center"]), axis=1)
         rec.close("circle-max-radius", abs(rad.max() - boundary_radius) / boundary_radius, 1e-9)
+        # every cell lies in one of the requested sectors [a, a + 90 deg] (cell centroids; the covered area alone does not tell
+        # where the sectors are)
+        cen = pts[cells].mean(1) - np.array(case["center"])
+        ang = np.degrees(np.arctan2(cen[:, 1], cen[:, 0])) % 360.0
+        inside = np.zeros(len(cen), bool)
+        for a_ in case["sections"]:
+            inside |= ((ang - a_) % 360.0) <= 90.0
+        rec.require("circle-cells-inside-the-requested-sectors", bool(inside.all()), {"sections": case["sections"], "outside": int((~inside).sum())})
         if len(case["sections"]) == 4:
             bp = sorted({p for e, k in cnt.items() if k == 1 for p in e})
             rec.close("circle-boundary-on-radius", float(np.abs(rad[bp] - boundary_radius).max()) / boundary_radius, 1e-9)
@@ -581,6 +589,15 @@ def cont_check(dimkind, case, rec):
                 vol = volumes(np.asarray(stacked.points, float), np.asarray(stacked.cells), types[0])
                 ref = np.concatenate(model)
                 rec.close("stack:volumes", float(np.abs(vol - ref).max()) / float(np.abs(ref).max()) if vol.shape == ref.shape else float("inf"), 1e-10 + (1e-4 if merged else 0.0))
+                if len(model) >= 2:
+                    # a selection of members (list of indices, not a prefix): the stacked mesh holds exactly those members' cells
+                    pick = [len(model) - 1] if o.get("decimals") is None else [len(model) - 1, 0]
+                    sub = cont.stack(pick)
+                    vs = volumes(np.asarray(sub.points, float), np.asarray(sub.cells), types[0])
+                    rs = np.concatenate([model[i_] for i_ in pick])
+                    rec.close("stack(idx):volumes-of-the-selected-members", float(np.abs(vs - rs).max()) / float(np.abs(rs).max()) if vs.shape == rs.shape else float("inf"), 1e-10 + (1e-4 if merged else 0.0), {"idx": pick})
+                    got_l = cont[pick]
+                    rec.require("container[list]-returns-the-selected-members", len(got_l) == len(pick) and all(g_ is cont.meshes[i_] for g_, i_ in zip(got_l, pick)))
             else:
                 try:
                     cont.stack()
@@ -890,7 +907,7 @@ def int_check(op, case, rec):
         if op == "dual":
             return m.dual(points_per_cell=np.asarray(m.cells).shape[1], disconnect=True, calc_points=True, offset=2)
         if op == "add_runouts":
-            return m.add_runouts(values=[0.15], centerpoint=[(k - 1) / 2 for k in n], axis=0, exponent=3, normalize=True) if kind in ("quad", "hexahedron") else None
+            return m.add_runouts(values=[0.15, 0.25], centerpoint=[(k - 1) / 2 for k in n], axis=0, exponent=3, normalize=True) if kind in ("quad", "hexahedron") else None
         if op == "copy":
             return m.copy(points=np.asarray(m.points) * 1.5)
         if op == "fill_between":
